@@ -191,7 +191,7 @@ def stepSer (st : St) (cmd : List String) (got : String) : Option (St × Verdict
         let v := r.validate
         let exp := "ok " ++ (if entry == "unmarshal" then "-1" else toString m) ++ " " ++
           (if v then "valid" else "invalid") ++ " " ++ renderRep r
-        if entry == "must" && !v then some (st0, expect "panic" got)   -- MustReadFrom panics to report a validation failure
+        if (entry == "must" || entry == "mustck") && !v then some (st0, expect "panic" got)   -- MustReadFrom panics to report a validation failure
         else if got != exp then some (st0, some exp)
         else if v && !r.wf then
           some (st0, some "Validate()==nil implies well-formed (model WF fails on this accepted input)")
